@@ -467,6 +467,11 @@ def gen_fn(out, unit, f, sf, meta, probe):
         if ls.invariant:
             tmp.add('            invariant', {'kind': 'kw', 'fn': fnq})
             clause_lines(tmp, ls.invariant, fnq, 'invariant', '                ', default_props, ci, loop=ls.ordinal)
+        if ls.ensures and re.match(r'^for\b', hdr):
+            # measured: Verus neither checks nor assumes `ensures` on a for-loop that contains no `break`
+            lb_close = rs.match_close(body, bmask, lb)
+            if not re.search(r'\bbreak\b', ''.join(ch if bmask[k] else ' ' for k, ch in enumerate(body[lb:lb_close], lb))):
+                raise GenError('%s: loop %d: `ensures` on a for-loop without break is ignored by Verus; state it as invariant' % (fnq, ls.ordinal))
         if ls.ensures:
             tmp.add('            ensures', {'kind': 'kw', 'fn': fnq})
             clause_lines(tmp, ls.ensures, fnq, 'loop-ensures', '                ', default_props, ci, loop=ls.ordinal)
